@@ -35,6 +35,10 @@ pub struct K18 {
     pub events_a: Vec<KEvent>,
     /// phase B: view controls, relative to the start of phase B
     pub events_b: Vec<KEvent>,
+    /// long-count mode: this many extra frames of one aircraft arrive as a backlog (hundreds of
+    /// lines per segment) before anything else; frames are judged once the backlog is consumed
+    #[serde(default)]
+    pub bulk: usize,
 }
 
 fn key(code: &str) -> KEv {
@@ -96,6 +100,15 @@ pub fn generate(rng: &mut Rng, fault_free: bool) -> K18 {
             t += 150_000 + rng.below(250_000);
         }
     }
+    let bulk = if !fault_free && rng.chance(0.006) { 10_000 + rng.usize_below(400) } else { 0 };
+    let filter_time = if bulk > 0 { 1_000_000 } else { filter_time };
+    if bulk > 0 {
+        // the backlog needs one main-loop iteration (>= 10 ms) per line
+        let shift = bulk as u64 * 10_500 + 2_000_000;
+        for l in lines.iter_mut() {
+            l.0 += shift;
+        }
+    }
     lines.sort();
     // at least 120 ms between segments: one line per read, one read per iteration
     for i in 1..lines.len() {
@@ -104,6 +117,7 @@ pub fn generate(rng: &mut Rng, fault_free: bool) -> K18 {
         }
     }
     let end_a = lines.last().map(|l| l.0).unwrap_or(0).max(dur_a) + 300_000;
+    let ev_gap_scale = if bulk > 0 { 12 } else { 1 };
     // phase A events
     let controls_in_a = !fault_free && rng.chance(0.3);
     let mut events_a = vec![];
@@ -133,7 +147,7 @@ pub fn generate(rng: &mut Rng, fault_free: bool) -> K18 {
             ev
         };
         events_a.push(KEvent { at_us: t, ev });
-        t += 200_000 + rng.below(900_000);
+        t += (200_000 + rng.below(900_000)) * ev_gap_scale;
     }
     // phase B: view controls then reset, then look at the data again
     let mut events_b = vec![];
@@ -152,6 +166,14 @@ pub fn generate(rng: &mut Rng, fault_free: bool) -> K18 {
         }
         push(&mut events_b, &mut t, key("Enter"), 200_000);
         push(&mut events_b, &mut t, key("F1"), 150_000);
+        if rng.chance(0.7) {
+            // held zoom key while centred on the aircraft: it must stay in the middle of the map
+            let k = if rng.chance(0.75) { "c:+" } else { "c:-" };
+            for _ in 0..3 + rng.below(26) {
+                push(&mut events_b, &mut t, key(k), 40_000);
+            }
+            t += 150_000;
+        }
     }
     for _ in 0..nctl {
         let ev = match rng.below(12) {
@@ -175,19 +197,42 @@ pub fn generate(rng: &mut Rng, fault_free: bool) -> K18 {
     push(&mut events_b, &mut t, key("F4"), 250_000);
     push(&mut events_b, &mut t, key("F1"), 250_000);
     push(&mut events_b, &mut t, key("c:q"), 0);
-    K18 { cols, rows, filter_time, locations, flags, lines, events_a, events_b }
+    K18 { cols, rows, filter_time, locations, flags, lines, events_a, events_b, bulk }
 }
 
 fn end_a(sc: &K18) -> u64 {
-    let a = sc.lines.last().map(|l| l.0).unwrap_or(0);
+    let a = sc.lines.last().map(|l| l.0).unwrap_or(0).max(sc.bulk as u64 * 10_500 + if sc.bulk > 0 { 2_000_000 } else { 0 });
     let b = sc.events_a.iter().map(|e| e.at_us).max().unwrap_or(0);
     a.max(b) + 400_000
 }
 
 pub fn compile(sc: &K18) -> KChild {
+    let mut segments: Vec<KSegment> = vec![];
+    if sc.bulk > 0 {
+        let addr = [0xa7, 0x20, 0x77];
+        let mut text = String::new();
+        let mut nseg = 0u64;
+        for i in 0..sc.bulk {
+            let me = match i {
+                0 => wire::me_identification(4, 0, "BULK"),
+                1 | 2 => {
+                    let (yz, xz) = wire::cpr_encode(RX.0 + 0.1, RX.1 + 0.1, i == 2);
+                    wire::me_airborne_position(11, 0, 0, wire::ac12_q(12_000), false, i == 2, yz, xz)
+                }
+                _ => wire::me_velocity(1, 0, wire::sub_ground_speed(0, 1 + (i % 900) as u16, 0, 1 + (i * 7 % 900) as u16), 0, 0, 1 + (i % 300) as u16, 0, 3),
+            };
+            text.push_str(&format!("*{};\n", wire::hex(&wire::df17(5, addr, me))));
+            if (i + 1) % 250 == 0 || i + 1 == sc.bulk {
+                segments.push(KSegment { at_us: 50_000 + nseg * 1_000, hex: wire::hex(text.as_bytes()) });
+                text.clear();
+                nseg += 1;
+            }
+        }
+    }
+    segments.extend(sc.lines.iter().map(|(t, hex)| KSegment { at_us: *t, hex: wire::hex(format!("*{hex};\n").as_bytes()) }));
     let connects = vec![KConnect {
         outcome: KOutcome::Accept,
-        segments: sc.lines.iter().map(|(t, hex)| KSegment { at_us: *t, hex: wire::hex(format!("*{hex};\n").as_bytes()) }).collect(),
+        segments,
         close_at_us: None,
         rst: false,
         eintr_reads: vec![],
@@ -204,7 +249,7 @@ pub fn compile(sc: &K18) -> KChild {
     }
     // never coalesce: one segment (= one line) per read, so the processing time of every line is
     // the time of its RD entry in the seam log
-    KChild { connects, events, proc_delay_us: vec![], coalesce: vec![false], step_budget: 40_000 }
+    KChild { connects, events, proc_delay_us: vec![], coalesce: vec![false], step_budget: 40_000 + 4 * sc.bulk as u64 }
 }
 
 struct RefSnap {
@@ -255,6 +300,27 @@ fn find_label(s: &Screen, rect: (usize, usize, usize, usize), text: &str) -> Vec
     v
 }
 
+/// (current tab as drawn, ICAO of the row marked ">> " if any)
+fn tab_and_selection(s: &Screen) -> (&'static str, Option<String>) {
+    if let Some((hx, hy)) = s.find("ICAO   Call sign") {
+        let mut sel = None;
+        for y in hy + 2..s.rows.len() {
+            let r: Vec<char> = s.rows[y].iter().map(|c| c.ch).collect();
+            if hx >= 3 && r.len() > hx + 6 && r.iter().skip(hx - 3).take(3).collect::<String>() == ">> " {
+                sel = Some(r.iter().skip(hx).take(6).collect::<String>().trim().to_string());
+            }
+        }
+        return ("airplanes", sel);
+    }
+    if block_rect(s, "Map").is_some() {
+        return ("map", None);
+    }
+    if s.find("┌Coverage").is_some() {
+        return ("coverage", None);
+    }
+    ("other", None)
+}
+
 fn map_text(s: &Screen) -> Option<String> {
     let r = block_rect(s, "Map")?;
     let mut t = String::new();
@@ -282,6 +348,7 @@ pub fn execute(sc: &K18) -> Outcome {
     }
     let run = run_child(&Spec { exe: &exe("radar"), args, child: &child, tty: Some((sc.cols, sc.rows)), wall_limit: Duration::from_secs(30) });
     let mut vt = Vt::new();
+    vt.keep_from = sc.bulk as u64;
     vt.feed(&run.out);
     let log = parse_log(&run.seam_log);
     let p = Parsed { run, vt, log };
@@ -323,6 +390,14 @@ pub fn execute(sc: &K18) -> Outcome {
     let mut ev_count_at_frame: BTreeMap<u64, usize> = BTreeMap::new();
     let mut evs: Vec<String> = vec![];
     let mut expired_any = false;
+    let shown: BTreeMap<u64, (&'static str, Option<String>)> = p.vt.frames.iter().map(|f| (f.k, tab_and_selection(f))).collect();
+    let mut last_frame_k: Option<u64> = None;
+    // aircraft the map is currently centred on (Enter on its selected row), and the net zoom since
+    let mut centred: Option<(String, i32)> = None;
+    let mut centred_at_frame: BTreeMap<u64, Option<(String, i32)>> = BTreeMap::new();
+    let mut iters = 0usize;
+    let mut backlog_at_frame: BTreeMap<u64, bool> = BTreeMap::new();
+    let mut delivered_lines = 0usize;
     let mut dirty_a = false;
     let mut dirty_at_frame: BTreeMap<u64, bool> = BTreeMap::new();
     for l in &p.log {
@@ -332,6 +407,7 @@ pub fn execute(sc: &K18) -> Outcome {
                     out.inconclusive = true;
                 }
                 rsadsb_common::verif_clock::set(vt_time(*t));
+                delivered_lines = stream[..(*total).min(stream.len())].iter().filter(|&&b| b == b'\n').count();
                 while let Some(nl) = stream[consumed..(*total).min(stream.len())].iter().position(|&b| b == b'\n') {
                     let line = &stream[consumed..consumed + nl];
                     consumed += nl + 1;
@@ -349,6 +425,25 @@ pub fn execute(sc: &K18) -> Outcome {
             LogEv::Ev { json, .. } => {
                 if evs.len() < sc.events_a.len() && ["\"Up\"", "\"Down\"", "\"Left\"", "\"Right\"", "\"c:-\"", "\"c:+\"", "\"Enter\"", "Drag", "Scroll"].iter().any(|k| json.contains(k)) {
                     dirty_a = true;
+                }
+                // view state that matters for the centred-aircraft clause
+                let (tab_now, sel_now) = last_frame_k.and_then(|k| shown.get(&k).cloned()).unwrap_or(("other", None));
+                if json.contains("\"code\":\"Enter\"") {
+                    centred = match (tab_now, sel_now) {
+                        ("airplanes", Some(icao)) if tr.aircraft_details(icao.parse().unwrap_or(ICAO([0, 0, 0]))).is_some() => Some((icao, 0)),
+                        ("airplanes", _) => centred,
+                        _ => None, // Enter on Map / Coverage resets the view
+                    };
+                } else if ["\"Up\"", "\"Down\"", "\"Left\"", "\"Right\"", "Drag"].iter().any(|k| json.contains(k)) && tab_now != "airplanes" {
+                    centred = None;
+                } else if json.contains("\"c:+\"") || json.contains("ScrollUp") {
+                    if tab_now == "map" || tab_now == "coverage" || json.contains("Scroll") {
+                        centred = centred.map(|(i, z)| (i, z + 1));
+                    }
+                } else if json.contains("\"c:-\"") || json.contains("ScrollDown") {
+                    if tab_now == "map" || tab_now == "coverage" || json.contains("Scroll") {
+                        centred = centred.map(|(i, z)| (i, z - 1));
+                    }
                 }
                 for k in ["l", "n", "i"] {
                     if json.contains(&format!("\"code\":\"c:{k}\"")) {
@@ -374,6 +469,11 @@ pub fn execute(sc: &K18) -> Outcome {
                 snaps.insert(*k, RefSnap { table: table_of(&tr), len: tr.len(), total_added, most, ac });
                 toggle_at_frame.insert(*k, (toggles["l"], toggles["n"], toggles["i"]));
                 ev_count_at_frame.insert(*k, evs.len());
+                last_frame_k = Some(*k);
+                centred_at_frame.insert(*k, centred.clone());
+                iters += 1;
+                // a one-line-per-iteration client has consumed everything delivered by now?
+                backlog_at_frame.insert(*k, sc.bulk > 0 && iters < delivered_lines + 2);
                 dirty_at_frame.insert(*k, dirty_a);
             }
             _ => {}
@@ -398,6 +498,13 @@ pub fn execute(sc: &K18) -> Outcome {
 
     for s in &p.vt.frames {
         let Some(r) = snaps.get(&s.k) else { continue };
+        if backlog_at_frame[&s.k] {
+            // long-count mode: the client is still working through the backlog
+            continue;
+        }
+        if sc.bulk > 0 {
+            out.probe("judged_after_backlog_of_10000_lines");
+        }
         let nev = ev_count_at_frame[&s.k];
         let in_phase_a = nev <= n_a;
         let evb = nev.saturating_sub(n_a); // number of phase-B events delivered before this frame
@@ -470,6 +577,33 @@ pub fn execute(sc: &K18) -> Outcome {
                 check_map(sc, s, rect, r, toggle_at_frame[&s.k], &mut out);
                 if out.violation.is_some() {
                     return out;
+                }
+            } else if let Some((icao, zoom)) = &centred_at_frame[&s.k] {
+                // centred on an aircraft and not zoomed out since: it is in the middle of the map,
+                // whatever the zoom level
+                let (dis_latlon, dis_callsign, dis_icao) = toggle_at_frame[&s.k];
+                if let (Some((cs, lat, lon)), false, true) = (r.ac.get(icao), dis_icao, *zoom >= 0) {
+                    let name = if dis_callsign { icao.clone() } else { cs.clone().unwrap_or_else(|| icao.clone()) };
+                    let label = if dis_latlon { name } else { format!("{name} ({lat:.3}, {lon:.3})") };
+                    let found = find_label(s, rect, &label);
+                    let (ix, iy, iw, ih) = rect;
+                    let (cx0, cx1, cy1) = (ix + (iw - 1) / 2, ix + iw / 2, iy + ih / 2);
+                    out.probe("centred_aircraft_judged");
+                    if *zoom >= 8 {
+                        out.probe("centred_aircraft_judged_after_8_zoom_ins");
+                    }
+                    match found.first() {
+                        None => {
+                            out.violate("C18:centred-aircraft-not-on-the-map", format!("frame {} (t={}us): the map was centred on {icao} (Enter on its selected row, {zoom} net zoom-in steps since) but its label {label:?} is not drawn\n{}", s.k, s.vt_us, s.text().join("\n")));
+                            return out;
+                        }
+                        Some((x, y)) => {
+                            if *x + 1 < cx0 || *x > cx1 + 1 || *y > cy1 || *y + 4 < cy1 {
+                                out.violate("C18:centred-aircraft-not-at-the-centre", format!("frame {} (t={}us): the map was centred on {icao} ({zoom} net zoom-in steps since) but its label is drawn at cell ({x},{y}); the canvas centre is column {cx0}..{cx1}, row {cy1}", s.k, s.vt_us));
+                                return out;
+                            }
+                        }
+                    }
                 }
             }
             if !in_phase_a {
@@ -661,6 +795,9 @@ pub fn shrink(sc: &K18) -> Vec<K18> {
     if (sc.cols, sc.rows) != (120, 40) {
         c.push(K18 { cols: 120, rows: 40, ..sc.clone() });
     }
+    if sc.bulk > 0 {
+        c.push(K18 { bulk: 0, ..sc.clone() });
+    }
     if sc.filter_time != 1000 {
         c.push(K18 { filter_time: 1000, ..sc.clone() });
     }
@@ -670,7 +807,7 @@ pub fn shrink(sc: &K18) -> Vec<K18> {
 pub fn describe(sc: &K18) -> Value {
     json!({
         "terminal": format!("{}x{}", sc.cols, sc.rows), "filter_time": sc.filter_time, "flags": sc.flags,
-        "locations": sc.locations, "traffic_lines": sc.lines.len(),
+        "locations": sc.locations, "traffic_lines": sc.lines.len(), "backlog_lines_of_one_aircraft": sc.bulk,
         "phase_a_events": sc.events_a.iter().take(10).map(|e| format!("t={}us {:?}", e.at_us, e.ev)).collect::<Vec<_>>(),
         "phase_b_events": sc.events_b.iter().map(|e| format!("+{}us {:?}", e.at_us, e.ev)).collect::<Vec<_>>(),
     })
